@@ -20,11 +20,20 @@ ATTR_NAMES = ["name", "payload", "inputs", "outputs", "copy"]
 PARAM_NAMES = ["node", "n", "s", "p"]
 OUT_NAMES = ["0", "1", "x", "out", "10", "2"]
 IN_NAMES = ["a", "b", "x", "input", "in0"]
+# input names that are ordinary keyword names for Node(...) but coincide with parameter names of helpers further down the line
+HELPER_PARAM_NAMES = ["data", "node_factory", "graph", "func", "key"]
+# node names that coincide with the keys of a serialised node record
+RECORD_KEYS = ["inputs", "outputs", "payload", "name"]
 
 json_payloads = st.one_of(
     st.none(), st.booleans(), st.integers(-(2**40), 2**40), st.floats(allow_nan=False, allow_infinity=False, width=32),
     st.text(alphabet="abc é\"", max_size=4), st.lists(st.integers(0, 3), max_size=3),
     st.dictionaries(st.sampled_from(["k", "l", ""]), st.integers(0, 3), max_size=2),
+    # payloads shaped like (parts of) a serialised node record
+    st.dictionaries(st.sampled_from(["inputs", "outputs", "payload", "k"]),
+                    st.one_of(st.integers(0, 3), st.lists(st.integers(0, 3), max_size=2),
+                              st.dictionaries(st.sampled_from(["k", "inputs"]), st.lists(st.text(alphabet="ab0", max_size=2), max_size=2), max_size=2)),
+                    max_size=2),
 )
 small_payloads = st.one_of(st.integers(0, 3), st.sampled_from(["p", "q", "add", "mul"]), st.none())
 
@@ -36,12 +45,12 @@ def graph_specs(draw, max_nodes: int = 12, min_nodes: int = 0, names: str = "adv
     if names == "adversarial":
         name_st = st.text(alphabet=ADVERSARIAL, min_size=1, max_size=4)
     elif names == "unicode":
-        name_st = st.text(min_size=0, max_size=5)
+        name_st = st.one_of(st.text(min_size=0, max_size=5), st.text(min_size=0, max_size=5), st.sampled_from(RECORD_KEYS))
     else:
         name_st = st.text(alphabet="abc", min_size=1, max_size=3)
     nms = draw(st.lists(name_st, min_size=n, max_size=n, unique=True))
     out_pool = OUT_NAMES + (ATTR_NAMES if attr_outputs else [])
-    in_pool = IN_NAMES + (PARAM_NAMES if param_inputs else [])
+    in_pool = IN_NAMES + (PARAM_NAMES + HELPER_PARAM_NAMES if param_inputs else []) + (HELPER_PARAM_NAMES if names == "unicode" else [])
     nodes: list[dict] = []
     alias: dict[tuple, int] = {}  # (node index, output name) -> index of a default-output node called "<node name>.<output name>"
     for i in range(n):
